@@ -22,6 +22,7 @@ type verifStepCfg struct {
 	liteFixed       int  // with lite==0: 1 forces a lite agent
 	nominating      bool // controlling: the selector's nominatedPair may be set
 	smallPrio       bool // candidate priorities range over 1..256 instead of all 32 bits
+	trailing        bool // USE-CANDIDATE / nomination / role attributes are placed AFTER MESSAGE-INTEGRITY (not covered by it)
 }
 
 type verifPend struct {
@@ -239,29 +240,44 @@ func verifInboundStep(cfg verifStepCfg) *verifStep {
 	if s.userKind != 0 {
 		setters = append(setters, stun.NewUsername(s.username))
 	}
+	var trailing []stun.Setter
+	add := func(x stun.Setter) {
+		if cfg.trailing {
+			trailing = append(trailing, x)
+		} else {
+			setters = append(setters, x)
+		}
+	}
 	s.useCand = verifChoice(2) == 1
 	if s.useCand {
-		setters = append(setters, UseCandidate())
+		add(UseCandidate())
 	}
 	if cfg.renomination {
 		s.nomKind = verifChoice(2 + verifTier())
 		switch s.nomKind {
 		case 1:
 			s.nomValue = verifU32() & 0xFFFFFF
-			setters = append(setters, NominationSetter{Value: s.nomValue, AttrType: DefaultNominationAttribute})
+			add(NominationSetter{Value: s.nomValue, AttrType: DefaultNominationAttribute})
 		case 2:
-			setters = append(setters, stun.RawAttribute{Type: DefaultNominationAttribute, Value: []byte{1, 2}})
+			add(stun.RawAttribute{Type: DefaultNominationAttribute, Value: []byte{1, 2}})
 		}
 	}
 	// role attribute of the opposite role (no conflict); conflicts are C05
-	if s.class == stun.ClassRequest && !cfg.onlyAuth {
-		s.ctrl = verifChoice(2)
+	if s.class == stun.ClassRequest && (!cfg.onlyAuth || cfg.trailing) {
+		s.ctrl = verifChoice(2 + verifB2I(cfg.trailing))
 	}
-	if s.ctrl == 1 {
+	switch s.ctrl {
+	case 1:
 		if s.controlling {
-			setters = append(setters, AttrControlled(verifU64()))
+			add(AttrControlled(verifU64()))
 		} else {
-			setters = append(setters, AttrControlling(verifU64()))
+			add(AttrControlling(verifU64()))
+		}
+	case 2: // (trailing only) the receiver's OWN role: would be a role conflict if it were honoured
+		if s.controlling {
+			add(AttrControlling(verifU64()))
+		} else {
+			add(AttrControlled(verifU64()))
 		}
 	}
 	s.prio = verifU32()
@@ -285,6 +301,7 @@ func verifInboundStep(cfg verifStepCfg) *verifStep {
 	case 3:
 		setters = append(setters, stun.NewShortTermIntegrity(verifOtherPwd))
 	}
+	setters = append(setters, trailing...) // behind MESSAGE-INTEGRITY: not authenticated
 	setters = append(setters, stun.Fingerprint)
 	msg, err := stun.Build(setters...)
 	if err != nil {
@@ -388,4 +405,11 @@ func verifBindingRequest(id [stun.TransactionIDSize]byte, ctrl int, tb uint64, u
 		panic("verif: build request: " + err.Error())
 	}
 	return m
+}
+
+func verifB2I(b bool) int {
+	if b {
+		return 1
+	}
+	return 0
 }
